@@ -14,6 +14,12 @@ CHECKS = {
     "C03": dict(cat="proof", ref="6 C03",
                 text="same symbolic constructor runs as C01 with the data-phase clauses: len(datain) equals the allocation length decoded from the CDB / tl*blocksize / the SAT transfer rule over all t_length, byte_block, t_type, t_dir; dataout is the caller's object or empty; both are byte buffers",
                 note=TRUST + "the transports' use of the buffers is covered by the C07/C13 units"),
+    "C02": dict(cat="proof", ref="6 C02",
+                text="for every command class: decode(build(args)) returns every constructor argument under exactly one key at the full width the standard gives the field (all fields symbolic at once), encode(decode(cdb)) reproduces the bytes, and encode/decode are inverse on every byte string of the CDB's length whose undefined bits are zero; z3 per clause",
+                note=TRUST + "the library's key names are discovered by probing the real code, not read from its tables; for the SAT LBA the dictionary carries the scattered wire field (compared as such); non-interference between fields follows from the joint quantification"),
+    "C10": dict(cat="proof", ref="6 C10",
+                text="scsi_int_to_ba / scsi_ba_to_int for every size 0..16 (32 thorough) against division/modulo spec functions; encode_dict / decode_bits for every contiguous mask of 1..72 bits at every bit alignment (1..128 thorough) plus every mask in the repository, at a symbolic byte offset of an arbitrary buffer (z3 arrays, skolem index for the frame clause); blobs b/w/dw; order independence and decode(encode) on every layout table of the repository",
+                note=TRUST + "the mask family is finite (stated); a proof parametric in the mask is not attempted; callers verified modularly use these contracts"),
     "C14": dict(cat="proof", ref="6 C14",
                 text="one ground obligation per table entry (5 sets, 249 opcodes, every service action, 9 status names, all cross-set pairs) against spec/t10_opcodes.py, read from the live Enum/OpCode objects; SCSICommand.init_cdb verified for every integer opcode value (symbolic, 129-bit range)",
                 note=TRUST + "T10 code list transcribed by hand; names unknown to the reference make the check undecided"),
